@@ -56,6 +56,8 @@ type Req struct {
 	Reference       string `json:"reference,omitempty"`
 	TxID            uint64 `json:"txid,omitempty"`
 	AtEffectiveDate bool   `json:"atEffectiveDate,omitempty"`
+	// WithMetadata: the revert request carries user metadata {"note": "x"}
+	WithMetadata bool `json:"withMetadata,omitempty"`
 	// bulk: the elements run sequentially inside ONE SQL transaction (atomic bulk: Controller.BeginTX)
 	Elems []Req `json:"elems,omitempty"`
 	// import: the logs to import are those of ledger From (exported by the real Export)
@@ -196,11 +198,30 @@ type env struct {
 var cur *env
 var debugDump bool
 
+var lpgCopy string
+
+// lpgPath: a private copy of the LeanPG executable, taken once per run — the shared binary under
+// lean/.lake/build/bin is relinked (and briefly missing) whenever another check rebuilds it.
 func lpgPath() string {
-	if p := os.Getenv("VERIF_LPG"); p != "" {
-		return p
+	if lpgCopy != "" {
+		return lpgCopy
 	}
-	return pgfake.DefaultLpgPath()
+	src := pgfake.DefaultLpgPath()
+	if p := os.Getenv("VERIF_LPG"); p != "" {
+		src = p
+	}
+	for attempt := 0; attempt < 60; attempt++ {
+		data, err := os.ReadFile(src)
+		if err == nil && len(data) > 0 {
+			dst := fmt.Sprintf("%s/lpg-%d", os.TempDir(), os.Getpid())
+			if err := os.WriteFile(dst, data, 0o755); err == nil {
+				lpgCopy = dst
+				return dst
+			}
+		}
+		time.Sleep(2 * time.Second)
+	}
+	return src
 }
 
 // getEnv returns a server; a fresh one every `every` cases (all ledgers of a server share the
@@ -257,6 +278,10 @@ func closeEnv() {
 	if cur != nil {
 		cur.srv.Close()
 		cur = nil
+	}
+	if lpgCopy != "" {
+		_ = os.Remove(lpgCopy)
+		lpgCopy = ""
 	}
 }
 
@@ -394,9 +419,13 @@ func perform(ctx context.Context, e *env, ctrl ledgercontroller.Controller, name
 			}
 		}
 	case "revert":
+		var md metadata.Metadata
+		if r.WithMetadata {
+			md = metadata.Metadata{"note": "x"}
+		}
 		log, rev, hit, err := ctrl.RevertTransaction(ctx, ledgercontroller.Parameters[ledgercontroller.RevertTransaction]{
 			IdempotencyKey: r.IK,
-			Input:          ledgercontroller.RevertTransaction{Force: r.Force, AtEffectiveDate: r.AtEffectiveDate, TransactionID: r.TxID},
+			Input:          ledgercontroller.RevertTransaction{Force: r.Force, AtEffectiveDate: r.AtEffectiveDate, TransactionID: r.TxID, Metadata: md},
 		})
 		resp.Err, resp.Msg, resp.Hit = classifyErr(err), errMsg(err), hit
 		if err == nil {
